@@ -64,7 +64,8 @@ def scenarios():
         g2.angular_speed = AngularSpeed(30, "rpm")
         pt = Powertrain(m)
         return dict(pt=pt, solver=Solver(pt), motor=m, last=g2, load=load,
-                    schedule=[(TimeInterval(2, "ms"), TimeInterval(40, "ms"), {}), (TimeInterval(0.005, "sec"), TimeInterval(0.05, "sec"), {})])
+                    # continuation: dt in seconds but T in milliseconds, and a dt (3 ms) that does not divide the previous final time (40 ms)
+                    schedule=[(TimeInterval(2, "ms"), TimeInterval(40, "ms"), {}), (TimeInterval(0.003, "sec"), TimeInterval(45, "ms"), {})])
 
     def idler_train():
         # an idler gear: slave of the first mating and master of the second (its mating role is the one declared last)
@@ -385,11 +386,14 @@ def check_c12(name, build):
     d0["solver"].run(time_discretization=dt, simulation_time=dt * n, **kw)
     single = _histories(d0)
     other = "ms" if dt.unit == "sec" else "sec"
-    for label, conv in (("continuation in the same unit", lambda q: q), (f"continuation in {other}", lambda q: q.to(other))):
+    same = lambda q: q                      # noqa: E731
+    oth = lambda q: q.to(other)             # noqa: E731
+    for label, conv, convT in (("continuation in the same unit", same, same), (f"continuation in {other}", oth, oth),
+                               (f"continuation with dt in {dt.unit} and T in {other}", same, oth)):
         d = build()
         kwd = d["schedule"][0][2]            # this build's own controller (bound to its own powertrain)
         d["solver"].run(time_discretization=dt, simulation_time=dt * n1, **kwd)
-        d["solver"].run(time_discretization=conv(dt), simulation_time=conv(dt * (n - n1)), **kwd)
+        d["solver"].run(time_discretization=conv(dt), simulation_time=convT(dt * (n - n1)), **kwd)
         f = _diff(single, _histories(d), False, f"run T1 then {label} vs one run of T1+T2")
         if f:
             fails.append(dict(property="C12", scenario=name, **f))
